@@ -162,6 +162,37 @@ def scn(params):
                     c2c(tt + rng.choice([0, 2000, 30000]), 0, 1)
                 tt += rng.choice([0, 0, 5000, 100000, 400000, 1000000, 2500000])
             st["bystander_frames"] = nby[0]
+            if not (cfg["raw"] and t.neg and t.neg[0]["conn"] == 0):
+                # packets whose compressed size makes them need exactly 16 (15, 2) fragments at the negotiated sizes - the most
+                # the 4-bit fragment counter can number, so the largest packets the property speaks of
+                import zlib as _z
+                for (side, nfr) in (("srv", 16), ("cli", 16), ("srv", 15), ("srv", 16), ("cli", 15), ("srv", 2)):
+                    unit = frag0 if side == "srv" else upcap0
+                    hi = nfr * unit - rng.choice([0, 0, 1, 3])
+                    lo = (nfr - 1) * unit + 1
+                    if hi > 60000 or hi < 60 or unit < 4:
+                        continue
+                    size = hi - 11
+                    fr = None
+                    for _try in range(60):
+                        cand = proto.make_frame(t.server_tun_ip if side == "srv" else t.tun_ips[0], t.tun_ips[0] if side == "srv" else t.server_tun_ip,
+                                                (params["idx"] << 20) | ident[0], size, "random", rng)
+                        cl = len(_z.compress(cand, 9))
+                        if lo <= cl <= hi:
+                            fr = cand
+                            break
+                        size += (hi - cl) if cl > hi else max(1, (hi - cl))
+                        if size < 40:
+                            break
+                    if fr is None:
+                        continue
+                    tt += rng.choice([2, 3]) * US
+                    st["offer_time"][(params["idx"] << 20) | ident[0]] = tt
+                    k.at(tt, k.offer_tun, "srv" if side == "srv" else t.clients[0].name, fr, ident[0])
+                    ident[0] += 1
+                    st["exact_count_frames"] = st.get("exact_count_frames", 0) + 1
+                    st.setdefault("exact_ids", set()).add((params["idx"] << 20) | (ident[0] - 1))
+                tt += 3 * US
             if by and params.get("by_vanish"):
                 # the bystander (the later, higher-numbered session) is in the middle of a download when its machine is
                 # suspended: packets for it pile up at the server; the judged session must not be held up by that
@@ -293,8 +324,12 @@ def scn(params):
         frag = t.neg[0]["frag"] if t.neg else 100
         raw = bool(t.neg and t.neg[0]["conn"] == 0)
         cap = 100000 if raw else tunnelscn.up_capacity(k, cname, t.sim.domain, t.neg[0]["enc"] if t.neg else 5)
-        down_ok = (lambda f: True) if raw else (lambda f: tunnelscn.est_down_frags(f, frag) <= MAXFR)
-        up_ok = (lambda f: True) if raw else (lambda f: tunnelscn.est_up_frags(f, cap) <= MAXFR)
+        # (the frames sized for an exact fragment count were measured with the zlib the programs use - same shared library, same
+        # level - so for them the count is exact and the limit is the property's 16; for the others the estimate keeps a margin)
+        exact = st.get("exact_ids", set())
+        lim = lambda f: 16 if proto.frame_ident(f) in exact else MAXFR
+        down_ok = (lambda f: True) if raw else (lambda f: tunnelscn.est_down_frags(f, frag) <= lim(f))
+        up_ok = (lambda f: True) if raw else (lambda f: tunnelscn.est_up_frags(f, cap) <= lim(f))
         ot = st["offer_time"]
         if mode == "clean":
             # With a second session the server keeps reading its tun while only one session's queue is full, and then
@@ -312,6 +347,7 @@ def scn(params):
                 out["stats"]["bystander_runs_queue_filled"] = int(qfull)
             for (reader, writer, elig, d) in (("srv", cname, down_ok, "down"), (cname, "srv", up_ok, "up")):
                 prob, nr, nw = _seq_check(k, reader, writer, elig)
+                out["stats"]["clean_frames_sized_for_exactly_2_15_16_fragments"] = st.get("exact_count_frames", 0)
                 out["stats"]["clean_%s_accepted" % d] = nr
                 out["stats"]["clean_%s_delivered" % d] = nw
                 if prob and qfull and d == "down" and prob[0] == "lost":
